@@ -133,6 +133,15 @@ HARNESSES = [
                      weight=4 if op else 1)
                 for si in (0, 1) for op in (0, 1)]),
     # ---- configuration -------------------------------------------------------
+    dict(name="create_bp", file="create_bp.c", label="bounded(workers<=2, block size 4096)", timeout=300,
+         fp={"block_processor_destroy:destroy": "stub_pool_destroy", "destroy": "stub_obj_destroy",
+             "copy": "stub_cmp_copy", "get_worker_count": "stub_get_worker_count",
+             "set_worker_ptr": "stub_set_worker_ptr", "do_block": "stub_do_block",
+             "read_at": "stub_read_at"},
+         unwind=4,
+         cases=[dict(id="file%d_uncmp%d" % (f, u), defines={"HAVE_FILE": f, "HAVE_UNCMP": u, "BS": 4096},
+                     tier="quick")
+                for f in (0, 1) for u in (0, 1)]),
     dict(name="init_compare", file="init_compare.c", label="proved", timeout=300,
          fp={"write_options": "stub_write_options", "destroy": "stub_destroy"},
          cases=[dict(id="all", tier="quick")]),
